@@ -32,7 +32,7 @@ func main() {
 		total := sh.NewStats()
 		n := r.Pick(400, 8000)
 		st := sh.Batch(r, "C07", "hist", n, 8, func(c *ev.Case, i int) sh.Config {
-			return sh.Config{NoUpstream: i%2 == 1, Steps: 5 + c.Rand.Intn(36), Windows: windows, DirectLock: i%5 == 0, LockOps: i%7 == 0, KIDs: []string{"touch", "text", "touchless", "empty"}, Preload: i%3 == 0,
+			return sh.Config{NoUpstream: i%2 == 1, Steps: 5 + c.Rand.Intn(36), Windows: windows, DirectLock: i%5 == 0, LockOps: i%7 == 0, KIDs: []string{"touch", "text", "touchless", "empty", "many-prins"}, Preload: i%3 == 0,
 				Weights: map[string]int{"direct-add": 10, "direct-remove": 7, "add-hard-cert": 12, "list": 12, "sign": 10}}
 		}, nt)
 		mergeInto(total, st)
